@@ -34,10 +34,26 @@ def run_variant(var: dict) -> tuple[dict, bool, str]:
             if n != 1:
                 return var, False, f"edit does not apply exactly once ({n}x) in {edit['file']}: {edit['old'][:60]!r}"
             path.write_text(text.replace(edit["old"], edit["new"]), encoding="utf-8")
+        if "patchfile" in var:  # a stored seeded change (unified diff relative to the repository root)
+            cp = subprocess.run(["patch", "-p1", "-s", "-i", var["patchfile"]], cwd=str(scratch), capture_output=True, text=True)
+            if cp.returncode != 0:
+                return var, False, "seed patch does not apply: " + (cp.stdout + cp.stderr)[-200:]
         if "sed" in var:  # replace-all edit
             f, old, new = var["sed"]
             path = scratch / f
             path.write_text(path.read_text(encoding="utf-8").replace(old, new), encoding="utf-8")
+        if "resub" in var:  # regex replace-all edit (word-boundary renames)
+            import re
+            f, pat, new = var["resub"]
+            path = scratch / f
+            text = path.read_text(encoding="utf-8")
+            text2 = re.sub(pat, new, text)
+            if text2 == text:
+                return var, False, f"regex edit changes nothing: {pat}"
+            path.write_text(text2, encoding="utf-8")
+            cp = subprocess.run(["/venv/bin/python", "-m", "py_compile", str(path)], capture_output=True, text=True)
+            if cp.returncode != 0:
+                return var, False, "variant does not compile: " + cp.stderr[-200:]
         # the variant must still be valid Python
         for edit in var["edits"]:
             if edit["file"].endswith(".py"):
@@ -69,6 +85,15 @@ def run_variant(var: dict) -> tuple[dict, bool, str]:
 
 def main() -> int:
     from selftest_variants import VARIANTS
+    import json
+    import re
+    # every confirmed seeded change must be caught by the checks recorded in its meta.json
+    for meta_path in sorted((HERE / "seeded").glob("*/meta.json")):
+        meta = json.loads(meta_path.read_text())
+        for cb in meta.get("caught_by", []):
+            for m in re.finditer(r"\b(C\d\d)-(R\w+)", cb.split(" - ")[0]):
+                VARIANTS.append({"prop": m.group(1), "id": f"{m.group(1)}:seed-{meta_path.parent.name}", "expect": "F",
+                                 "rule": m.group(2), "edits": [], "patchfile": str(meta_path.parent / "patch.diff")})
 
     ap = argparse.ArgumentParser()
     ap.add_argument("props", nargs="*")
